@@ -3,6 +3,7 @@ CONSTANTS
   Record = FALSE
   Scripts <- ScriptsQ
   FaultChoices <- OneFault
+  RouteChoices <- DistinctRoutes
 PROPERTY Termination
 INVARIANT EachOnce
 INVARIANT ReturnsAfterAll
